@@ -167,7 +167,7 @@ Theorem source_iff_rust_target g :
   has_source (elision_source g) = match rust_target (s_self g) (s_params g) with TSelf | TPos _ => true | _ => false end.
 Proof.
   unfold elision_source.
-  destruct (lower_self (s_n g) (s_self g)) as [ps0 s0] eqn:Es.
+  destruct (lower_self (s_n g) (s_self g)) as [ps0 s0] eqn:Es. cbn [snd].
   destruct (lower_params s0 (s_params g)) as [ps s1] eqn:Ep. cbn [snd].
   rewrite (elision_source_rule _ _ _ _ _ Es Ep). unfold rust_target.
   pose proof (lower_params_positions _ _ _ _ Ep) as L.
@@ -193,7 +193,7 @@ Proof. unfold pad. rewrite app_length, repeat_length. lia. Qed.
 Lemma pad_idem ls ndef : ndef <= length ls -> pad ls ndef = ls.
 Proof. intros H. unfold pad. replace (ndef - length ls) with 0 by lia. cbn. apply app_nil_r. Qed.
 
-Lemma ret_generics_spell s h args ndef sp :
+Lemma ret_generics_spell s h args ndef (sp : bool) :
   ret_lower s AAnon = Some h ->
   ret_generics s (if sp then args else map (spell (alt_of_lt h)) (pad args ndef)) ndef sp = ret_generics s args ndef sp.
 Proof.
@@ -242,16 +242,31 @@ Proof.
   rewrite IH; auto. unfold ret_lower in *. rewrite (lower_ret1_src _ _ _ _ E). auto.
 Qed.
 
-(* writing the source lifetime out in place of every elided lifetime of the return type changes nothing: the borrow
-   analysis of `fn f(&'a self, x: &'b T) -> &R` is that of `-> &'a R` *)
+(* spellings differ in what the AST records as implied bounds, nothing else: compare up to Model.ty's first flag *)
+Definition forget (t : ty) : ty :=
+  match t with TOpaque _ opt b tid args => TOpaque false opt b tid args | _ => t end.
+Definition forget_sig (m : msig) : msig :=
+  mkSig (m_n m) (m_decl m) (map forget (m_params m)) (map forget (m_ret m)).
+
+Lemma forget_mark t p : forget (mark t p) = forget p.
+Proof. destruct t as [|sp opt [[| |]|] tid args ndef| |], p; auto. Qed.
+Lemma forget_marks ts : forall ps, map forget (marks ts ps) = map forget ps.
+Proof. induction ts as [|t r IH]; intros [|p pr]; cbn; auto. rewrite forget_mark, IH. auto. Qed.
+
+(* writing the source lifetime out in place of every elided lifetime of the return type changes the lowered
+   signature in nothing but that flag: the analysis of `fn f(&'a self, x: &'b T) -> &R` runs on the same lifetimes as
+   that of `-> &'a R` *)
 Theorem elided_return_is_source g h :
   elision_source g = SelfParam h \/ elision_source g = OneParam h ->
-  lower_sig (spell_ret (alt_of_lt h) g) = lower_sig g.
+  option_map (fun mk => (forget_sig (fst mk), snd mk)) (lower_sig (spell_ret (alt_of_lt h) g)) =
+  option_map (fun mk => (forget_sig (fst mk), snd mk)) (lower_sig g).
 Proof.
   unfold elision_source, lower_sig, spell_ret. cbn [s_n s_self s_params s_ret s_decl].
-  destruct (lower_self (s_n g) (s_self g)) as [ps0 s0]. destruct (lower_params s0 (s_params g)) as [ps s1]. cbn [snd].
-  intros H. rewrite lower_rets_spell; auto.
-  unfold ret_lower. destruct H as [H|H]; rewrite H; auto.
+  destruct (lower_self (s_n g) (s_self g)) as [ps0 s0]. cbn [snd]. destruct (lower_params s0 (s_params g)) as [ps s1]. cbn [snd].
+  intros H. rewrite lower_rets_spell.
+  - destruct (lower_rets s1 (s_ret g)) as [[rs s2]|]; cbn; auto.
+    unfold forget_sig; cbn. rewrite !forget_marks. auto.
+  - unfold ret_lower. destruct H as [H|H]; rewrite H; auto.
 Qed.
 
 (* ---------- when lowering panics ---------- *)
@@ -344,7 +359,7 @@ Theorem lowering_panics_iff g :
    match rust_target (s_self g) (s_params g) with TNone | TAmbiguous => True | _ => False end).
 Proof.
   pose proof (source_iff_rust_target g) as R. unfold elision_source in R. unfold lower_sig.
-  destruct (lower_self (s_n g) (s_self g)) as [ps0 s0]. destruct (lower_params s0 (s_params g)) as [ps s1]. cbn [snd] in R.
+  destruct (lower_self (s_n g) (s_self g)) as [ps0 s0]. cbn [snd] in R. destruct (lower_params s0 (s_params g)) as [ps s1]. cbn [snd] in R.
   destruct (has_source (src s1)) eqn:Hs.
   - pose proof (lower_rets_some (s_ret g) s1 Hs) as N.
     destruct (lower_rets s1 (s_ret g)) as [[rs s2]|]; [|tauto].
@@ -353,4 +368,154 @@ Proof.
     destruct (lower_rets s1 (s_ret g)) as [[rs s2]|].
     + split; [discriminate|intros [? _]; discriminate].
     + split; auto. intros _. split; auto. destruct (rust_target _ _); try discriminate; auto.
+Qed.
+
+(* ---------- Rust's outlives relation does not depend on the spelling ---------- *)
+From Coq Require Import Relations.
+From DV Require Import Lifetimes.Spec Lifetimes.Proofs.
+
+Lemma ref_ops_forget n t : ref_ops n (forget t) = ref_ops n t.
+Proof. destruct t; auto. Qed.
+Lemma ty_use_forget t : ty_use (forget t) = ty_use t.
+Proof. destruct t; auto. Qed.
+
+Lemma flat_map_map {A B C} (f : B -> list C) (g : A -> B) l : flat_map f (map g l) = flat_map (fun a => f (g a)) l.
+Proof. induction l as [|a r IH]; cbn; auto. rewrite IH. auto. Qed.
+
+Lemma spec_ops_forget m : spec_ops (forget_sig m) = spec_ops m.
+Proof.
+  unfold spec_ops, forget_sig; cbn. f_equal. rewrite <- map_app, flat_map_map.
+  apply flat_map_ext. intros t. apply ref_ops_forget.
+Qed.
+
+Lemma rust_edge_forget ds m u v : rust_edge ds (forget_sig m) u v <-> rust_edge ds m u v.
+Proof.
+  split; intros H.
+  - destruct H as [u v H|t tid args x y u v Hin Hu Hw Hx Hy].
+    + apply re_own. rewrite spec_ops_forget in H. auto.
+    + cbn in Hin. rewrite <- map_app in Hin. apply in_map_iff in Hin. destruct Hin as [t0 [E Hin]]. subst t.
+      rewrite ty_use_forget in Hu. eapply re_use; eauto.
+  - destruct H as [u v H|t tid args x y u v Hin Hu Hw Hx Hy].
+    + apply re_own. rewrite spec_ops_forget. auto.
+    + apply (re_use ds (forget_sig m) (forget t) tid args x y u v); auto.
+      * cbn. rewrite <- map_app. apply in_map. auto.
+      * rewrite ty_use_forget. auto.
+Qed.
+
+Lemma outlives_forget ds m r x : outlives ds (forget_sig m) r x <-> outlives ds m r x.
+Proof.
+  unfold outlives. split; intros H; induction H as [|a b c Hab Hbc IH]; try constructor.
+  - econstructor; [apply rust_edge_forget; eauto|auto].
+  - econstructor; [apply rust_edge_forget; eauto|auto].
+Qed.
+
+Lemma spec_edge_forget ds m r e : spec_edge ds (forget_sig m) r e <-> spec_edge ds m r e.
+Proof.
+  destruct e as [p|p|p slot opt|p]; cbn [spec_edge forget_sig m_params]; try tauto.
+  - split.
+    + intros (sp & opt & b & tid & args & u & Hn & Hi & Ho).
+      rewrite nth_error_map in Hn. destruct (nth_error (m_params m) p) as [t|] eqn:E; [|discriminate].
+      destruct t; cbn in Hn; inversion Hn; subst. apply (proj1 (outlives_forget _ _ _ _)) in Ho. do 6 eexists. split; [reflexivity|split; eauto].
+    + intros (sp & opt & b & tid & args & u & Hn & Hi & Ho).
+      exists false, opt, b, tid, args, u. rewrite nth_error_map, Hn. cbn. split; auto. split; auto. apply outlives_forget; auto.
+  - split.
+    + intros (opt & b & u & Hn & Hi & Ho).
+      rewrite nth_error_map in Hn. destruct (nth_error (m_params m) p) as [t|] eqn:E; [|discriminate].
+      destruct t; cbn in Hn; inversion Hn; subst. apply (proj1 (outlives_forget _ _ _ _)) in Ho. do 3 eexists. split; [reflexivity|split; eauto].
+    + intros (opt & b & u & Hn & Hi & Ho).
+      exists opt, b, u. rewrite nth_error_map, Hn. cbn. split; auto. split; auto. apply outlives_forget; auto.
+  - split.
+    + intros (tid & args & u & Hn & Hi & Ho).
+      rewrite nth_error_map in Hn. destruct (nth_error (m_params m) p) as [t|] eqn:E; [|discriminate].
+      destruct t; cbn in Hn; inversion Hn; subst. apply (proj1 (outlives_forget _ _ _ _)) in Ho. do 3 eexists. split; [reflexivity|split; eauto].
+    + intros (tid & args & u & Hn & Hi & Ho).
+      exists tid, args, u. rewrite nth_error_map, Hn. cbn. split; auto. split; auto. apply outlives_forget; auto.
+Qed.
+
+(* For a method written with an elided return lifetime and accepted by validation, the inputs the analysis reports
+   are exactly those Rust's rules require for the same method with the source lifetime written out. *)
+Theorem elided_return_edges g h ds m k m' k' r :
+  elision_source g = SelfParam h \/ elision_source g = OneParam h ->
+  lower_sig g = Some (m, k) -> lower_sig (spell_ret (alt_of_lt h) g) = Some (m', k') ->
+  defs_okb ds = true -> validate_defs ds = true -> sig_okb ds m = true -> validate_method ds m = true ->
+  In r (ret_lts m) -> no_borrowed_opt_slice ds m r ->
+  k = k' /\ forall e, In e (edges_for m r) <-> spec_edge ds m' r e.
+Proof.
+  intros Hs Hm Hm' Hd Hv Hk Hvm Hr Hn.
+  pose proof (elided_return_is_source g h Hs) as E. rewrite Hm, Hm' in E. cbn in E.
+  assert (F : forget_sig m' = forget_sig m) by congruence.
+  split; [congruence|]. intros e.
+  rewrite (borrow_edges_exact_b ds m r Hd Hv Hk Hvm Hr Hn e).
+  rewrite <- (spec_edge_forget ds m r e), <- (spec_edge_forget ds m' r e), F. tauto.
+Qed.
+
+(* ---------- an elided return lifetime whose source is itself anonymous is refused by validation ---------- *)
+Lemma map_opt_in s h ls hs :
+  ret_lower s AAnon = Some h -> map_opt (ret_lower s) ls = Some hs -> existsb is_anon ls = true -> In h hs.
+Proof.
+  intros Hh. revert hs. induction ls as [|a r IH]; intros hs; cbn [map_opt existsb]; [discriminate|].
+  destruct (ret_lower s a) as [x|] eqn:Ea; [|discriminate].
+  destruct (map_opt (ret_lower s) r) as [xs|]; [|discriminate].
+  intros H; inversion H; subst. rewrite orb_true_iff. intros [A|A].
+  - destruct a; try discriminate. left. congruence.
+  - right. apply IH; auto.
+Qed.
+
+Lemma lower_ret1_elided_in s h t p s1 :
+  ret_lower s AAnon = Some h -> lower_ret1 s t = Some (p, s1) ->
+  existsb is_anon (ret_positions t) = true -> In h (ty_lts p).
+Proof.
+  intros Hh.
+  assert (B : forall b hb, ret_borrow s b = Some hb -> existsb is_anon (opt_list b) = true -> In h (opt_list hb)).
+  { intros [l|] hb; cbn; [|discriminate]. destruct (ret_lower s l) eqn:E; [|discriminate].
+    intros H; inversion H; subst. destruct l; cbn; try discriminate. intros _. left. congruence. }
+  assert (G : forall args ndef (sp : bool) hs s2, ret_generics s args ndef sp = Some (hs, s2) ->
+              existsb is_anon (if sp then [] else pad args ndef) = true -> In h hs).
+  { intros args ndef sp hs s2. unfold ret_generics. destruct sp; [cbn; discriminate|].
+    destruct (map_opt _ _) as [xs|] eqn:E; [|discriminate]. intros H; inversion H; subst. apply (map_opt_in _ h _ _ Hh E). }
+  destruct t as [|sp opt b tid args ndef|opt b|sp opt tid args ndef]; cbn [lower_ret1 ret_positions].
+  - cbn. discriminate.
+  - destruct (ret_borrow s b) as [hb|] eqn:Eb; [|discriminate].
+    destruct (ret_generics s args ndef sp) as [[hs s2]|] eqn:Eg; [|discriminate].
+    intros H; inversion H; subst. rewrite existsb_app, orb_true_iff. cbn [ty_lts]. rewrite in_app_iff.
+    intros [A|A]; [right; eapply B; eauto|left; eapply G; eauto].
+  - destruct (ret_borrow s b) as [hb|] eqn:Eb; [|discriminate]. intros H; inversion H; subst. cbn [ty_lts]. eapply B; eauto.
+  - destruct (ret_generics s args ndef sp) as [[hs s2]|] eqn:Eg; [|discriminate].
+    intros H; inversion H; subst. cbn [ty_lts]. eapply G; eauto.
+Qed.
+
+Lemma ty_lts_mark t p : ty_lts (mark t p) = ty_lts p.
+Proof. destruct t as [|sp opt [[| |]|] tid args ndef| |], p; auto. Qed.
+Lemma ty_lts_marks ts : forall ps, flat_map ty_lts (marks ts ps) = flat_map ty_lts ps.
+Proof. induction ts as [|t r IH]; intros [|p pr]; cbn; auto. rewrite ty_lts_mark, IH. auto. Qed.
+
+Lemma lower_rets_elided_in ts : forall s h rs s2,
+  ret_lower s AAnon = Some h -> lower_rets s ts = Some (rs, s2) -> ret_elided ts = true -> In h (flat_map ty_lts rs).
+Proof.
+  unfold ret_elided. induction ts as [|t r IH]; intros s h rs s2 Hh; cbn [lower_rets flat_map]; [cbn; discriminate|].
+  destruct (lower_ret1 s t) as [[p s1]|] eqn:E1; [|discriminate].
+  destruct (lower_rets s1 r) as [[pr s3]|] eqn:E2; [|discriminate].
+  intros H; inversion H; subst. rewrite existsb_app, orb_true_iff. cbn [flat_map]. rewrite in_app_iff. intros [A|A].
+  - left. eapply lower_ret1_elided_in; eauto.
+  - right. assert (Hh1 : ret_lower s1 AAnon = Some h) by (unfold ret_lower in *; rewrite (lower_ret1_src _ _ _ _ E1); auto).
+    eapply IH; eauto.
+Qed.
+
+(* "Found elided lifetime in return type": when the source of elision is not a named lifetime (`fn f(&self) -> &T`,
+   `fn f(x: &T) -> &T`), validation refuses the method, for any type definitions *)
+Theorem elided_return_of_anonymous_source_rejected g i m k ds :
+  (elision_source g = SelfParam (Lt i) \/ elision_source g = OneParam (Lt i)) -> s_n g <= i ->
+  ret_elided (s_ret g) = true -> lower_sig g = Some (m, k) -> validate_method ds m = false.
+Proof.
+  unfold elision_source, lower_sig.
+  destruct (lower_self (s_n g) (s_self g)) as [ps0 s0]. cbn [snd]. destruct (lower_params s0 (s_params g)) as [ps s1]. cbn [snd].
+  intros Hs Hi He. destruct (lower_rets s1 (s_ret g)) as [[rs s2]|] eqn:E; [|discriminate].
+  intros H; inversion H; subst. clear H.
+  assert (Hh : ret_lower s1 AAnon = Some (Lt i)) by (unfold ret_lower; destruct Hs as [Hs|Hs]; rewrite Hs; auto).
+  pose proof (lower_rets_elided_in _ _ _ _ _ Hh E He) as Hin.
+  unfold validate_method. apply andb_false_iff. left. cbn [m_n].
+  apply not_true_is_false. intros F. rewrite forallb_forall in F.
+  assert (Hr : In i (ret_lts (mkSig (s_n g) (s_decl g) (ps0 ++ ps) (marks (s_ret g) rs)))).
+  { unfold ret_lts. cbn [m_ret]. rewrite ty_lts_marks. unfold nonstatic. apply in_flat_map. exists (Lt i). split; auto. left; auto. }
+  specialize (F i Hr). apply Nat.ltb_lt in F. lia.
 Qed.
